@@ -100,6 +100,8 @@ impl MT950 {
         // Parse optional available balance
         let field_64 = parser.parse_optional_field::<Field64>("64")?;
 
+        crate::parser::utils::verify_parser_complete(&parser)?;
+
         Ok(MT950 {
             field_20,
             field_25,
